@@ -2,7 +2,10 @@
 
 At every query point of a seeded history two deep copies of the bandit (same model, same random-stream
 position, generator aliasing preserved by deepcopy) are asked predict(X) and predict_expectations(X); an
-online checker compares row by row.  Ties are provoked (binary / few-valued rewards, unobserved arms)."""
+online checker compares row by row.  Ties are provoked (binary / few-valued rewards, unobserved arms).
+
+As built: The live bandit answers queries too (whatever a real query leaves behind is part of the state of the next twin check); a predict -> warm_start -> predict scenario in which the arg-max changes; near-tie rewards (means differing in the 10th digit).
+"""
 from mon import env  # noqa: F401
 import copy
 import math
